@@ -427,17 +427,21 @@ class _Inliner:
                     out.extend(pre0)
                     self.changed = True
             # a helper call buried in a simple statement (`s.update(h(x))`) is first hoisted: `t = h(x); s.update(t)`
-            if isinstance(st, (ast.Expr, ast.Assign, ast.AugAssign, ast.Return)) and not (isinstance(st, (ast.Expr, ast.Return)) and isinstance(st.value, ast.Call) and self.lookup(st.value) is not None) and not (isinstance(st, ast.Assign) and isinstance(st.value, ast.Call) and self.lookup(st.value) is not None):
+            if (isinstance(st, (ast.Expr, ast.Assign, ast.AugAssign, ast.Return)) and not (isinstance(st, (ast.Expr, ast.Return)) and isinstance(st.value, ast.Call) and self.lookup(st.value) is not None) and not (isinstance(st, ast.Assign) and isinstance(st.value, ast.Call) and self.lookup(st.value) is not None)) or (isinstance(st, ast.If) and any(isinstance(n, ast.Call) and self.lookup(n) is not None for n in ast.walk(st.test))):
                 guarded = set()
-                for n in ast.walk(st):
+                is_if = isinstance(st, ast.If)
+                for n in ast.walk(st.test if is_if else st):
                     if isinstance(n, (ast.Lambda, ast.ListComp, ast.SetComp, ast.DictComp, ast.GeneratorExp, ast.IfExp, ast.BoolOp)):
                         guarded |= {id(x) for x in ast.walk(n) if x is not n}
-                cands = [n for n in ast.walk(st) if isinstance(n, ast.Call) and id(n) not in guarded and self.lookup(n) is not None]
+                cands = [n for n in ast.walk(st.test if is_if else st) if isinstance(n, ast.Call) and id(n) not in guarded and self.lookup(n) is not None]
                 if len(cands) == 1:
                     fn_ = self.lookup(cands[0])
                     b_ = _structure_returns(_body_wo_doc(fn_))
                     sl_ = _straight_line_as_return(b_)
-                    if not (sl_ is not None and len(sl_) == 1) and _all_paths_return_value(b_) and _only_tail_returns(b_) and self.binding(fn_, cands[0], b_) is not None:
+                    # (arguments that are not simple are evaluated into temporaries by the step above once the call is a statement of its own)
+                    probe = copy.copy(cands[0])
+                    probe.args = [a_ if _simple_arg(a_) or isinstance(a_, ast.Starred) else ast.Name("arg__probe", ast.Load()) for a_ in cands[0].args]
+                    if not (sl_ is not None and len(sl_) == 1) and _all_paths_return_value(b_) and _only_tail_returns(b_) and self.binding(fn_, probe, b_) is not None:
                         self.counter += 1
                         tmp = f"hoisted__{fn_.name}{self.counter}"
                         asg = ast.copy_location(ast.Assign([ast.Name(tmp, ast.Store())], cands[0]), st)
@@ -450,7 +454,11 @@ class _Inliner:
                                 self.generic_visit(n)
                                 return n
 
-                        st2 = R().visit(st)
+                        if is_if:
+                            st.test = R().visit(st.test)
+                            st2 = st
+                        else:
+                            st2 = R().visit(st)
                         ast.fix_missing_locations(asg)
                         out.extend(self.stmt_inline([asg, st2]))
                         self.changed = True
@@ -693,6 +701,84 @@ def _inline_list_temps(fn: ast.FunctionDef):
             seq = getattr(node, fld, None)
             if isinstance(seq, list) and seq and isinstance(seq[0], ast.stmt):
                 setattr(node, fld, do(seq))
+
+
+def _fold_list_builders(fn: ast.FunctionDef):
+    """A list built in steps reads as the display it ends up being:
+        xs = [f(c) for c in CONSTS]      (CONSTS a tuple / list of constants bound once in fn)   -> a display
+        xs.append(e) / xs.extend([..]) / xs.extend(f(c) for c in CONSTS) / xs += [..]            -> merged into it
+        ys = xs  (the only other use of xs, directly after)                                      -> xs itself
+    Only consecutive statements are merged: nothing can observe the list in between."""
+    consts: Dict[str, ast.AST] = {}
+    stores: Dict[str, int] = {}
+    for n in ast.walk(fn):
+        if isinstance(n, ast.Name) and isinstance(n.ctx, ast.Store):
+            stores[n.id] = stores.get(n.id, 0) + 1
+    for n in ast.walk(fn):
+        if isinstance(n, ast.Assign) and len(n.targets) == 1 and isinstance(n.targets[0], ast.Name) and stores.get(n.targets[0].id) == 1 and isinstance(n.value, (ast.Tuple, ast.List)) and all(isinstance(e, ast.Constant) for e in n.value.elts):
+            consts[n.targets[0].id] = n.value
+
+    def display(e: ast.AST) -> Optional[List[ast.AST]]:
+        if isinstance(e, (ast.List, ast.Tuple)) and not any(isinstance(x, ast.Starred) for x in e.elts):
+            return list(e.elts)
+        if isinstance(e, (ast.ListComp, ast.GeneratorExp)) and len(e.generators) == 1:
+            g = e.generators[0]
+            it = consts.get(g.iter.id) if isinstance(g.iter, ast.Name) else g.iter
+            if not g.ifs and not g.is_async and isinstance(g.target, ast.Name) and isinstance(it, (ast.Tuple, ast.List)) and len(it.elts) <= 32 and all(isinstance(x, ast.Constant) for x in it.elts):
+                return [ast.copy_location(_Subst({g.target.id: c}).visit(copy.deepcopy(e.elt)), e) for c in it.elts]
+        return None
+
+    def do(seq: List[ast.stmt]) -> List[ast.stmt]:
+        out: List[ast.stmt] = []
+        cur: Optional[ast.Assign] = None  # the display being built, last statement of `out`
+        for st in seq:
+            if isinstance(st, ast.Assign) and len(st.targets) == 1 and isinstance(st.targets[0], ast.Name):
+                d = display(st.value) if isinstance(st.value, (ast.ListComp, ast.List)) else None
+                if d is not None:
+                    st.value = ast.copy_location(ast.List(elts=d, ctx=ast.Load()), st.value)
+                    out.append(st)
+                    cur = st
+                    continue
+                if cur is not None and isinstance(st.value, ast.Name) and st.value.id == cur.targets[0].id and sum(1 for x in ast.walk(fn) if isinstance(x, ast.Name) and x.id == st.value.id and isinstance(x.ctx, ast.Load) and not _is_builder_receiver(fn, x)) == 1 and stores.get(st.targets[0].id) == 1:
+                    cur.targets = [st.targets[0]]
+                    continue
+            if cur is not None:
+                name = cur.targets[0].id
+                if isinstance(st, ast.Expr) and isinstance(st.value, ast.Call) and isinstance(st.value.func, ast.Attribute) and isinstance(st.value.func.value, ast.Name) and st.value.func.value.id == name and len(st.value.args) == 1 and not st.value.keywords:
+                    a = st.value.args[0]
+                    if st.value.func.attr == "append" and name not in names_in(a):
+                        cur.value.elts.append(a)
+                        continue
+                    if st.value.func.attr == "extend" and name not in names_in(a):
+                        d = display(a)
+                        if d is not None:
+                            cur.value.elts.extend(d)
+                            continue
+                if isinstance(st, ast.AugAssign) and isinstance(st.op, ast.Add) and isinstance(st.target, ast.Name) and st.target.id == name and name not in names_in(st.value):
+                    d = display(st.value)
+                    if d is not None:
+                        cur.value.elts.extend(d)
+                        continue
+            cur = None
+            out.append(st)
+        return out
+
+    def names_in(e: ast.AST) -> Set[str]:
+        return {x.id for x in ast.walk(e) if isinstance(x, ast.Name)}
+
+    for node in ast.walk(fn):
+        for fld in ("body", "orelse", "finalbody"):
+            seq = getattr(node, fld, None)
+            if isinstance(seq, list) and seq and isinstance(seq[0], ast.stmt):
+                setattr(node, fld, do(seq))
+    ast.fix_missing_locations(fn)
+
+
+def _is_builder_receiver(fn: ast.FunctionDef, name_node: ast.Name) -> bool:
+    for c in ast.walk(fn):
+        if isinstance(c, ast.Attribute) and c.value is name_node and c.attr in ("append", "extend"):
+            return True
+    return False
 
 
 def inline_once_locals(fn: ast.FunctionDef) -> ast.FunctionDef:
@@ -981,7 +1067,10 @@ def normalise_module(tree: ast.Module) -> ast.Module:
         params = {a.arg for a in fn.args.args + fn.args.kwonlyargs}
         m_: Dict[str, ast.AST] = {}
         for name, bs in binds.items():
-            if len(bs) == 1 and stores.get(name) == 1 and isinstance(bs[0].value, ast.Attribute) and is_chain(bs[0].value):
+            if len(bs) == 1 and stores.get(name) == 1 and isinstance(bs[0].value, ast.Name) and stores.get(bs[0].value.id) == 1 and bs[0].value.id not in params and name not in params and bs[0].value.id != name:
+                # `v = t` with both bound once: one object under two names
+                m_[name] = bs[0].value
+            elif len(bs) == 1 and stores.get(name) == 1 and isinstance(bs[0].value, ast.Attribute) and is_chain(bs[0].value):
                 root = bs[0].value
                 while isinstance(root, ast.Attribute):
                     root = root.value
@@ -997,6 +1086,8 @@ def normalise_module(tree: ast.Module) -> ast.Module:
             fn.body = [x for x in (_Drop().visit(st) for st in fn.body) if x is not None]
             for _r in range(3):
                 fn.body = [_Subst(m_).visit(st) for st in fn.body]
+    for fn in [f for f in t.body if isinstance(f, ast.FunctionDef) and f.name in ENTRY_STRUCTURED | {"start"}]:
+        _fold_list_builders(fn)
     ast.fix_missing_locations(t)
     t = _FoldJoined().visit(t)
     ast.fix_missing_locations(t)
